@@ -730,7 +730,7 @@ Qed.
 
 (* ---------- OPT ---------- *)
 Definition opts_ok (os : list (Z * list Z)) : Prop :=
-  Forall (fun cd => zmem (fst cd) special_options = false) os.
+  Forall (fun cd => opt_dec (fst cd) (snd cd) = Ok (snd cd)) os.
 
 Lemma opts_loop_read : forall os wb pre post fuel acc,
   opts_wire os = Ok wb -> opts_ok os -> (length wb < fuel)%nat ->
@@ -742,7 +742,7 @@ Proof.
   - cbn [opts_wire] in H. apply bind_ok in H. destruct H as (h1 & E1 & H). apply bind_ok in H. destruct H as (h2 & E2 & H).
     apply bind_ok in H. destruct H as (rest & E3 & H). injection H as <-.
     apply pack16_ok in E1, E2. destruct E1 as (-> & R1). destruct E2 as (-> & R2).
-    inversion OK as [|? ? O1 OK']; subst. cbn [fst] in O1.
+    inversion OK as [|? ? O1 OK']; subst. cbn [fst snd] in O1.
     destruct fuel; [lia|]. cbn [opts_loop].
     set (wb := MessageM.u16 code ++ MessageM.u16 (zlen data) ++ data ++ rest) in *.
     assert (Hwl : length wb = (4 + length data + length rest)%nat).
@@ -763,7 +763,7 @@ Proof.
       by (rewrite !app_length; cbn [length MessageM.u16]; lia).
     replace (Z.to_nat (zlen data)) with (length data) by (unfold zlen; rewrite Nat2Z.id; reflexivity).
     rewrite rd_bytes_at by (rewrite !app_length; cbn [length MessageM.u16]; lia). cbn [bind].
-    rewrite O1.
+    rewrite O1. cbn [bind].
     replace ((pre ++ MessageM.u16 code ++ MessageM.u16 (zlen data)) ++ data ++ rest ++ post)
       with ((pre ++ MessageM.u16 code ++ MessageM.u16 (zlen data) ++ data) ++ rest ++ post)
       by (rewrite <- !app_assoc; reflexivity).
